@@ -300,7 +300,7 @@ import cosign as _thin; _thin.wrap(globals(), "C11")  # COSIGN / CAT ops (checkl
 
 # --- SCD ops (hostile / broken scdaemon output against lib/assuan + token/scdtoken; parseCsExp; percent-escaping): a further
 # correspondence under the pseudo-property C11SCD, checklib/models/scd.py; theorems Relic.Props.C11.assuan_read_no_panic,
-# csexp_parse_total, transact_escape_roundtrip, scd_client_panics_only_in_getkey
+# csexp_parse_total, transact_escape_roundtrip, scd_client_no_panic, file_getkey_total
 import composite as _composite, scd as _scd
 UNPROVED = UNPROVED + _scd.UNPROVED["C11"]
 _run_c11_scd = run
